@@ -38,10 +38,10 @@ Shows(e, r, v) ==
             /\ val' = v /\ e.out = Out(Cfg(tid), r.st, v)
 
 InitLine(e) == /\ e.ev = "init" /\ phase = "new" /\ e.t = 0
-               /\ Shows(e, F!Enter(Cfg(tid), Cfg(tid).init, F!ABSENTV, 0, FALSE, 0), Cfg(tid).initv)
+               /\ Shows(e, F!Enter(Cfg(tid), Cfg(tid).init, F!ABSENTV, 0, FALSE, 0, FALSE), Cfg(tid).initv)
                /\ now' = 0
 ExtLine(e) == /\ e.ev = "ext" /\ phase = "run" /\ e.t >= now /\ NotOverdue(e.t)
-              /\ LET r == F!Handle(Cfg(tid), st, tm, e.e, e.d, e.t, TRUE)
+              /\ LET r == F!HandleC(Cfg(tid), st, tm, e.e, e.d, e.t, TRUE, e.c = 1)
                  IN  Shows(e, r, IF Cfg(tid).kind = "inputexp" /\ r.ret = "true" /\ e.e < 100 THEN e.v ELSE val)
               /\ now' = e.t
 FireLine(e) == /\ e.ev = "fire" /\ phase = "run" /\ e.t >= now
